@@ -77,6 +77,7 @@ impl DiffHook for Capture {
     /*@*/ closed spec fn observes_finish() -> bool { false }                  // the no-op default finish
     /*@*/ closed spec fn replace_is_atomic() -> bool { true }                 // overrides replace: one Replace op
     /*@*/ closed spec fn accepts_replace(&self) -> bool { true }
+    /*@*/ #[verifier::prophetic] open spec fn fobs(&self) -> Obs<Self::Error> { arbitrary() }   // owns everything, borrows nothing
 
     #[inline(always)]
     fn equal(&mut self, old_index: usize, new_index: usize, len: usize) -> (res: Result<(), Self::Error>)
